@@ -234,7 +234,7 @@ def run(ctx):
     ctx.rule = RULE
     rng = ctx.rng
     pool = []
-    n_names = ctx.n(6000, 1600000)
+    n_names = ctx.n(12000, 1600000)
     # fixed boundary corpus
     corpus = [[], [b'\x08\x00'], [b'\x08\x00', b'\x08\x00'], [rc.comp(8, b'a'), b'\x08\x00'],
               [b'\x08\x00', rc.comp(8, b'a')], [rc.comp(8, b'.')], [rc.comp(8, b'..')], [rc.comp(8, b'...')],
